@@ -170,8 +170,13 @@ def showUsed (l : List String) : String :=
 def showBool (b : Bool) : String := if b then "true" else "false"
 
 def closedOf (e : Expr) : Bool :=
+  -- the bounded fixpoint loop reached its fixpoint (the fallback of `Dce.reachable` is unused)
   let st := graphOf ruleNow e
-  closedUnder st.edges (reachable st)
+  closedUnder st.edges (reachRaw st) && (reachRaw st).getD 0 true
+
+/-- The hypotheses of `usedBindings_kept` (reported together with its conclusion in the `kept`
+    field of the answer). -/
+def hyps (e : Expr) : Bool := shapeOK e && bindersCoherent e
 
 def handle : List Sexp → String
   | [.atom "opt", e] =>
@@ -184,7 +189,8 @@ def handle : List Sexp → String
       let u1 := usedBindings e1
       let o := dce (inList u1) e1
       showUsed u ++ " (dce " ++ render d ++ ") (opt " ++ render o ++ ") (kept "
-        ++ showBool (kept (inList u) e) ++ " " ++ showBool (kept (inList u1) e1) ++ ") (closed "
+        ++ showBool (hyps e && uaOK e && kept (inList u) e) ++ " " ++ showBool (hyps e1 && kept (inList u1) e1)
+        ++ ") (closed "
         ++ showBool (closedOf e) ++ " " ++ showBool (closedOf e1) ++ ")"
   | _ => "bad-request"
 
